@@ -519,6 +519,38 @@ def h_eigh_split_late(ctx, D, P, k=2, n=2):
     ctx.eq(plain(A.data), X, 'input unchanged')
 
 
+def h_eigh_nested_concrete(ctx, D, lam_orders, seed):
+    """a repeated eigenvalue INSIDE a 4 x 4 matrix that stays repeated for some orders and splits
+    later, with a rotation that varies with t: A(t) = V(t)^T diag(lam(t)) V(t).  Beyond the symbolic
+    bounds (section 7 of DESIGN.md); concrete matrices, decided on the float build:
+    A Q = Q diag(l), Q^T Q = I, Q diag(l) Q^T = A modulo t^D to 1e-8."""
+    algopy = symx.load_algopy()
+    UTPM = algopy.UTPM
+    if ctx.mode == 'sym':
+        ctx.fact(True, 'concrete matrices: decided on the float build')
+        ctx.eq(S.const(0), S.const(0), 'eigh of nested repeated eigenvalues')
+        return
+    rng = np.random.RandomState(seed)
+    N, P = 4, 1
+    Lam = UTPM(np.zeros((D, P, N, N)))
+    for d, diag in enumerate(lam_orders):
+        if d < D:
+            Lam.data[d, 0] = np.diag(np.array(diag, dtype=float))
+    V, _ = UTPM.qr(UTPM(0.3 * rng.rand(D, P, N, N) + np.eye(N)))
+    A = UTPM.dot(UTPM.dot(V.T, Lam), V)
+    A0 = A.data.copy()
+    l, Q = algopy.eigh(A)
+    conv = lambda X, Y, d: sum(X[k, 0].dot(Y[d - k, 0]) for k in range(d + 1))
+    Qt = Q.data.transpose(0, 1, 3, 2)
+    for d in range(D):
+        e1 = np.abs(conv(Qt, Q.data, d) - (np.eye(N) if d == 0 else 0)).max()
+        QL = sum(Q.data[k, 0] * l.data[d - k, 0][None, :] for k in range(d + 1))
+        e2 = np.abs(conv(A0, Q.data, d) - QL).max()
+        ctx.fact(e1 < 1e-8, 'Q^T Q == I at order %d (residual %.2e)' % (d, e1))
+        ctx.fact(e2 < 1e-8, 'A Q == Q diag(l) at order %d (residual %.2e)' % (d, e2))
+    ctx.fact(np.array_equal(A.data, A0), 'operand unchanged')
+
+
 def h_eigh_pair3(ctx, D, P, where='low', fixed_Q0=None):
     """3x3 with a repeated PAIR inside: A0 = Q0 diag(l, l, l3) Q0^T (where='low', l3 > l) or
     diag(l1, l, l) (where='high'); A1 = Q0 M Q0^T with the 2x2 block of M that belongs to the pair
@@ -870,6 +902,10 @@ def units(tier, seed):
         add('eigh/2x2 eigenvalue repeated at orders 0..2, split at order 3/D5,P1', 'h_eigh_split_late', D=5, P=1, k=3)
         add('eigh/2x2 eigenvalue repeated at orders 0..3, split at order 4/D5,P1', 'h_eigh_split_late', D=5, P=1, k=4)
         add('eigh/2x2 eigenvalue repeated at every order/D4,P2', 'h_eigh_split_late', D=4, P=2, k=4)
+    for nm, lo in (('triple eigenvalue at orders 0 and 1, split at order 2', [[2, 2, 2, 5], [1, 1, 1, 0], [1, 3, 7, 1]]),
+                   ('pair at order 0, split at order 1, next to distinct eigenvalues', [[2, 2, 4, 5], [1, 3, 1, 0], [1, 3, 7, 1]]),
+                   ('triple splitting into pair + single at order 1, pair at order 2', [[2, 2, 2, 5], [1, 1, 3, 0], [1, 4, 7, 1]])):
+        add('eigh/4x4, %s/D5 (float-decided, concrete matrices)' % nm, 'h_eigh_nested_concrete', D=5, lam_orders=lo, seed=7)
     add('eigh/3x3 repeated pair (lower), split at order 1/D2,P1', 'h_eigh_pair3', D=2, P=1, where='low')
     add('eigh/3x3 repeated pair (upper), split at order 1/D2,P1', 'h_eigh_pair3', D=2, P=1, where='high')
     # (order 3 with a symbolic rotation Q0 exceeds the time limit: one concrete rational rotation, everything else symbolic)
